@@ -285,6 +285,9 @@ class C05(Property):
             {"kind": "wp", "obj": "mrchan", "n": 3, "items": [0, 0, 2, 0], "scripts": [[[0, 0]]], "sched": [0, 3, 1, 2, 4]},
             {"kind": "wp", "obj": "finish", "n": 0, "items": [0, 2, 0], "scripts": [[[0, 0]]], "sched": [0, 2, 3, 1]},
             {"kind": "wp", "obj": "finishvoid", "n": 0, "items": [0, 1, 0], "scripts": [[[0, 0]]], "sched": [0, 1, 3, 2]},
+            # cancel first, then the mappers still running panic: the caller has the cancel error already
+            {"kind": "wp", "obj": "mrmr", "n": 3, "items": [2, 1, 1, 0, 0], "scripts": [[[0, 0]]], "sched": [0, 1, 2, 3]},
+            {"kind": "wp", "obj": "finish", "n": 0, "items": [2, 1, 0, 5], "scripts": [[[0, 0]]], "sched": [0, 1, 4, 2, 3]},
             # default workers: one item more than the default
             {"kind": "wp", "obj": "mrdef", "n": 0, "items": [0] * (self._c()["mr_default"] + 1), "scripts": [[[0, 0]]], "sched": [0, 3, 1]},
             {"kind": "wp", "obj": "fxdef", "n": 0, "items": [0] * (self._c()["fx_default"] + 1), "scripts": [[[0, 0]]], "sched": [0, 5, 2]},
@@ -482,7 +485,12 @@ class C05(Property):
             items = [(2 if cancels else rng.choice([1, 1, 4, 5])) if rng.random() < 0.25 else 3 if rng.random() < 0.1 else 0
                      for _ in range(k)]
         sched = [0] + [rng.randint(0, k) for _ in range(rng.randint(k, 3 * k) if k <= 8 else rng.randint(3, 8))]
-        if rng.random() < 0.15:
+        if obj in WAITALL and k >= 2 and rng.random() < 0.12:
+            # cancel FIRST, panics afterwards (in that order the caller's result is the cancel error whatever
+            # the mappers still running do): item 0 cancels and is released first, the others return or panic
+            items = [2] + [rng.choice([0, 1, 4, 5]) for _ in range(k - 1)]
+            sched = [0, 1] + sched[1:]
+        elif rng.random() < 0.15:
             rng.shuffle(sched)
         case = {"kind": "wp", "obj": obj, "n": n, "items": items, "scripts": [[[0, 0]]], "sched": sched}
         if obj in FX_OBJS:
